@@ -69,12 +69,20 @@ def smooth_map(rng, dim, eps=0.2):
     ph = rng.uniform(0, 2 * np.pi, (dim, dim))
     amp = rng.uniform(-1, 1, (dim, dim))
     amp /= max(1e-12, np.abs(amp * K).sum(1).max())
+    # a non-separable part (a separable map X_i + sum_j g_ij(X_j) keeps the face integrands of the divergence theorem at a
+    # low polynomial degree on box meshes, which hides under-integration): waves along oblique directions
+    kv = rng.uniform(0.5, 1.5, (2, dim)) * rng.choice([-1.0, 1.0], (2, dim))
+    bv = rng.uniform(-1, 1, (2, dim))
+    bv /= max(1e-12, (np.abs(bv).max(1) * np.abs(kv).sum(1)).sum())
+    ph2 = rng.uniform(0, 2 * np.pi, 2)
 
     def f(X):
         Y = X.copy()
         for i in range(dim):
             for j in range(dim):
-                Y[:, i] += eps * amp[i, j] * np.sin(K[i, j] * X[:, j] + ph[i, j])
+                Y[:, i] += 0.5 * eps * amp[i, j] * np.sin(K[i, j] * X[:, j] + ph[i, j])
+        for m in range(2):
+            Y += 0.5 * eps * np.sin(X @ kv[m] + ph2[m])[:, None] * bv[m][None, :]
         return Y
     return f
 
